@@ -39,12 +39,12 @@ def main(argv):
     def flush():
         tmp = recpath + ".tmp"
         with open(tmp, "w") as f:
-            json.dump(rec.to_json(), f, ensure_ascii=False, default=repr)
+            json.dump(rec.to_json(), f, default=repr)
         os.replace(tmp, recpath)
 
     def one(data: bytes):
         try:
-            text = data.decode("utf-8")
+            text = data.decode("utf-8", "surrogatepass")
         except UnicodeDecodeError:
             return
         state["n"] += 1
@@ -67,7 +67,7 @@ def main(argv):
         from .gen.soup import FRAGMENTS
 
         for frag in FRAGMENTS:
-            b = frag.encode("utf-8")
+            b = frag.encode("utf-8", "surrogatepass")
             if 0 < len(b) <= 16:
                 f.write('"' + "".join(f"\\x{c:02x}" for c in b) + '"\n')
     args = [sys.argv[0], cdir, f"-runs={runs}", f"-max_len={max_len}", f"-seed={seed or 1}", f"-dict={dpath}", "-timeout=120", "-rss_limit_mb=4096", "-print_final_stats=0", "-verbosity=0"]
